@@ -5,6 +5,10 @@ VERIF = os.path.dirname(os.path.dirname(os.path.abspath(__file__)))
 ALL = ["C%02d" % i for i in range(1, 21)]
 
 CLAIMED = {
+ "C05": dict(
+    text="Generated well-formed netlists with an exact source model: every derived quantity (areas, areas by region, area-weighted centroids, kind flags, aspect ratio, per-module / all / fixed rectangle lists, nets, weights, wire length) is recomputed from the definition in Fractions / mpmath and compared; and the same documents with exactly one injected defect of each of 18 classes at a generated position must be rejected.",
+    note="Trusted: the 60-line expected-value functions over the source model, mpmath sqrt. Rejection = any exception. Order of rectangles inside a module is not asserted.",
+    technique="property-based testing (Hypothesis) against a reference model, plus fault-injected ill-formed inputs", ref="4/C05"),
  "C04": dict(
     text="Generated netlist documents covering every attribute combination of the exchange format (soft with scalar / per-region areas, centre, aspect ratio scalar / interval, rectangles in regions; hard, flippable, fixed, terminal; nets of any arity with repeated members, weights absent / 1 / int / float; YAML-sensitive names), loaded, written, re-read and compared field by field with ==; the second write must be textually identical and writing must not alter the object.",
     note="Round-trip oracle: the reader is on both sides, so reader defects that are consistent across both loads are C05's business, not C04's.",
